@@ -220,7 +220,7 @@ class SQLExecutor(object):
                 # a transaction.
                 batches = list(batches)
 
-                for batch, use_transaction in batches:
+                for batch, use_transaction, new_transaction in batches:
                     if not use_transaction:
                         logging.error(
                             'Unable to execute the following SQL inside of a '
@@ -232,12 +232,21 @@ class SQLExecutor(object):
                             'transaction. See the logging for more '
                             'information.')
 
-            for i, (batch, use_transaction) in enumerate(batches):
+            for i, (batch, use_transaction,
+                    new_transaction) in enumerate(batches):
                 if execute:
-                    if use_transaction:
+                    if not use_transaction:
+                        self.finish_transaction()
+                    elif new_transaction:
+                        # The statements explicitly asked for their own
+                        # transaction.
                         self.new_transaction()
                     else:
-                        self.finish_transaction()
+                        # Join the transaction that's already in progress
+                        # on this executor (from an earlier call to
+                        # run_sql()), so that everything run through the
+                        # executor is committed or rolled back together.
+                        self.ensure_transaction()
 
                 if capture and i > 0:
                     if use_transaction:
@@ -322,6 +331,14 @@ class SQLExecutor(object):
                     if isinstance(statement, tuple):
                         statement, params = statement
                         assert isinstance(params, tuple)
+
+                        if not params:
+                            # There's nothing to substitute, so this must not
+                            # be treated as a format string. Otherwise, any
+                            # literal "%" in the statement would be
+                            # interpreted when executing the statement (but
+                            # not when capturing it).
+                            params = None
                     else:
                         params = None
 
@@ -361,20 +378,25 @@ class SQLExecutor(object):
 
             1. The list of SQL statements.
             2. Whether to execute these statements in a transaction.
+            3. Whether the statements explicitly require a brand new
+               transaction (rather than joining one already in progress).
         """
         batch = None
         last_use_transaction = None
+        batch_new_transaction = False
 
         for (statement, params, use_transaction,
              new_transaction) in prepared_sql:
             if new_transaction or use_transaction is not last_use_transaction:
                 if batch:
-                    yield batch, last_use_transaction
+                    yield (batch, last_use_transaction,
+                           batch_new_transaction)
 
                 batch = []
                 last_use_transaction = use_transaction
+                batch_new_transaction = new_transaction
 
             batch.append((statement, params))
 
         if batch:
-            yield batch, last_use_transaction
+            yield batch, last_use_transaction, batch_new_transaction
